@@ -24,6 +24,8 @@ fn c07_kinds(thorough: bool) -> Vec<M> {
         send(&[(0, 1), (0, 1)]),
         send(&[(0, 0)]),
         send(&[]),
+        // two coins of two granted denominations, one of them above anything that can be left
+        send(&[(0, 1), (1, 3)]),
         M::SendSelf(vec![(0, Amt(1))]),
         M::Burn(vec![(0, Amt(1))]),
         M::Delegate,
@@ -141,11 +143,14 @@ fn configs(prop: &str, thorough: bool) -> Vec<(Cfg, Option<usize>)> {
                 c.admin_callers = vec![A1, A2, X];
                 c.admin_lists = vec![vec![A1], vec![A1, A2]];
                 c.freeze_callers = if thorough { vec![A1, X] } else { vec![] };
-                c.grant_callers = vec![A1, X];
+                // grant calls also by the subkey naming itself and by a stranger, with every expiry kind
+                c.grant_callers = vec![A1, S1, X];
                 c.targets = vec![tg(S1, &[0, 1], Some(2)), tg(A2, &[0], Some(1))];
                 c.inc_amounts = vec![1, 2];
-                c.dec_amounts = vec![1];
+                c.dec_amounts = vec![0, 1];
                 c.inc_exps = vec![ExpA::Unset, ExpA::H(H0 + 1)];
+                c.dec_exps = if thorough { vec![ExpA::Unset, ExpA::Never, ExpA::H(H0 + 2)] } else { vec![ExpA::Unset, ExpA::Never] };
+                c.migrate_probe = true;
                 c.perm_callers = vec![A1, X];
                 c.perm_targets = if thorough {
                     vec![(S2, all16.clone()), (S1, vec![P_DELEGATE, 15])]
@@ -171,6 +176,8 @@ fn configs(prop: &str, thorough: bool) -> Vec<(Cfg, Option<usize>)> {
                 c.inc_amounts = vec![1, 2];
                 c.dec_amounts = vec![1];
                 c.inc_exps = vec![ExpA::Unset, ExpA::T(T0 + DT)];
+                c.dec_exps = vec![ExpA::Unset, ExpA::Never];
+                c.migrate_probe = true;
                 c.perm_callers = vec![A1, S1];
                 c.perm_targets = vec![(S1, if thorough { all16.clone() } else { vec![0, P_DELEGATE, P_WITHDRAW, 15] })];
                 c.exec_callers = vec![A1, S1, X, 5];
@@ -197,6 +204,9 @@ fn configs(prop: &str, thorough: bool) -> Vec<(Cfg, Option<usize>)> {
                 vec![s(&[(0, 1)]), M::Delegate],
                 vec![s(&[(0, 0)])],
                 vec![s(&[])],
+                // two denominations in one send, one coin above what can be left of it
+                vec![s(&[(0, 1), (1, 3)])],
+                vec![s(&[(0, 3), (1, 1)])],
                 // one coin list naming a denomination twice: each entry fits what is left, the sum may not
                 vec![s(&[(0, 1), (0, 2)])],
                 vec![s(&[(0, 2), (0, 2)])],
@@ -227,9 +237,13 @@ fn configs(prop: &str, thorough: bool) -> Vec<(Cfg, Option<usize>)> {
                 } else {
                     vec![ExpA::Unset, ExpA::Never, ExpA::H(H0), ExpA::H(H0 + 1), ExpA::T(T0), ExpA::T(T0 + 2 * DT)]
                 };
-                c.dec_exps = if thorough { vec![ExpA::Unset, ExpA::H(H0 + 1), ExpA::H(H0 + 2), ExpA::T(T0)] } else { vec![ExpA::Unset, ExpA::H(H0 + 1)] };
+                c.dec_exps = if thorough { vec![ExpA::Unset, ExpA::Never, ExpA::H(H0 + 1), ExpA::H(H0 + 2), ExpA::T(T0)] } else { vec![ExpA::Unset, ExpA::Never, ExpA::H(H0 + 1)] };
                 c.exec_callers = vec![S1, S2];
                 c.exec_lists = spend.clone();
+                // coins attached to the Execute call itself (they are the caller's, not a credit on the allowance)
+                c.exec_funds = vec![vec![], vec![(0, Amt(1))]];
+                c.exec_funded_max_len = 2;
+                c.migrate_probe = true;
                 // non-admins also try their grant calls with coins attached (the named coin / another one)
                 c.grant_funds = vec![GF::None, GF::Same, GF::Other];
                 out.push((c, None));
@@ -251,6 +265,9 @@ fn configs(prop: &str, thorough: bool) -> Vec<(Cfg, Option<usize>)> {
                 c.exec_callers = vec![A2, S1, S2];
                 c.exec_lists = spend.iter().take(11).cloned().collect();
                 c.grant_funds = vec![GF::None, GF::Same, GF::Other];
+                c.exec_funds = vec![vec![], vec![(0, Amt(2))]];
+                c.exec_funded_max_len = 2;
+                c.migrate_probe = true;
                 if !thorough {
                     c.admin_lists = vec![vec![A1], vec![A1, A2]];
                     c.targets = vec![tg(S1, &[0], Some(2)), tg(A2, &[0], Some(1))];
@@ -340,6 +357,7 @@ fn configs(prop: &str, thorough: bool) -> Vec<(Cfg, Option<usize>)> {
                 c.exec_lists = vec![vec![send(&[(0, 1)])], vec![send(&[(1, 1)])], vec![send(&[(0, 1), (1, 1)])]];
                 c.probe_senders = vec![A1, A2, S1, S2, X, 5];
                 c.probe_msgs = msgs.clone();
+                c.migrate_probe = true;
                 out.push((c, None));
             }
             {
@@ -391,6 +409,11 @@ fn configs(prop: &str, thorough: bool) -> Vec<(Cfg, Option<usize>)> {
                     c.admin_callers = vec![0, 1, 2, 3];
                     c.admin_lists = vec![vec![], vec![0], vec![1], vec![0, 1], vec![1, 0], vec![3], vec![0, 0], vec![3, 0, 3]];
                     c.migrate_probe = true;
+                    // the chain-level migration admin is the stranger X where the set starts with A1 alone
+                    // (X has no rights inside the proxy unless the admin list names it)
+                    if n.starts_with("A1/") || n.starts_with("A1,X,X") {
+                        c.wasm_admin = Some(3);
+                    }
                     c.freeze_callers = vec![0, 1, 2, 3];
                     c.grant_callers = vec![0, 1, 2, 3];
                     c.targets = if thorough {
@@ -405,7 +428,7 @@ fn configs(prop: &str, thorough: bool) -> Vec<(Cfg, Option<usize>)> {
                     c.inc_amounts = if thorough { vec![0, 1, 2] } else { vec![0, 1] };
                     c.dec_amounts = vec![1];
                     c.inc_exps = vec![ExpA::Unset, ExpA::Never, ExpA::H(H0 + 1)];
-                    c.dec_exps = if thorough { vec![ExpA::Unset, ExpA::H(H0 + 2), ExpA::T(T0 + 2 * DT)] } else { vec![ExpA::Unset, ExpA::H(H0 + 2)] };
+                    c.dec_exps = if thorough { vec![ExpA::Unset, ExpA::Never, ExpA::H(H0 + 2), ExpA::T(T0 + 2 * DT)] } else { vec![ExpA::Unset, ExpA::Never, ExpA::H(H0 + 2)] };
                     c.perm_callers = vec![0, 1, 2, 3];
                     // two holders of permissions: a grant held by one must not let it grant to the other
                     c.perm_targets = vec![(2, if thorough { vec![0, 1, 2, 4, 8, 3, 12, 15] } else { vec![0, P_DELEGATE, P_WITHDRAW, 15] }), (1, vec![P_REDELEGATE])];
